@@ -28,15 +28,16 @@ Lemma sig_pass_sound S P it : sig_pass K S P = Some it ->
 Proof.
   revert it. induction S as [|s t IH]; intros it H sid pk req Hin; [destruct Hin|].
   destruct Hin as [->|Hin].
-  - cbn [sig_pass] in H. destruct (lookup sid (proofs K P)) as [[sp| | | |]|] eqn:E1; try discriminate.
+  - cbn [sig_pass] in H. destruct (lookup sid (proofs K P)) as [[sp| | | | |]|] eqn:E1; try discriminate.
     destruct (lookup sid (reported K P)) as [rep|] eqn:E2; try discriminate.
     destruct (disclosed_consistent K pk req rep (sp_disclosed K sp)) eqn:E3; try discriminate.
     exists sp, rep. repeat split; assumption.
-  - destruct s as [sid' pk' req'| | |]; cbn [sig_pass] in H.
-    + destruct (lookup sid' (proofs K P)) as [[sp'| | | |]|]; try discriminate.
+  - destruct s as [sid' pk' req'| | | |]; cbn [sig_pass] in H.
+    + destruct (lookup sid' (proofs K P)) as [[sp'| | | | |]|]; try discriminate.
       destruct (lookup sid' (reported K P)) as [rep'|]; try discriminate.
       destruct (disclosed_consistent K pk' req' rep' (sp_disclosed K sp')); try discriminate.
       destruct (sig_pass K t P) as [it'|] eqn:E; [|discriminate]. apply (IH it' eq_refl sid pk req Hin).
+    + apply (IH it H sid pk req Hin).
     + apply (IH it H sid pk req Hin).
     + apply (IH it H sid pk req Hin).
     + apply (IH it H sid pk req Hin).
@@ -46,20 +47,42 @@ Qed.
 Lemma pred_pass_step S0 s t P it : pred_pass K S0 (s :: t) P = Some it ->
   exists pre it', pred_pass K S0 t P = Some it' /\ it = pre ++ it'.
 Proof.
-  destruct s as [sid pk req|sid refs|sid ref claim gm gb|sid ref claim gm ek al]; cbn [pred_pass]; intros H.
+  destruct s as [sid pk req|sid refs|sid ref claim gm gb|sid ref claim gm ek al|sid ref claim]; cbn [pred_pass]; intros H.
   - exists [], it. split; [exact H|reflexivity].
   - destruct (lookup sid (proofs K P)) as [p|]; [destruct p|]; try discriminate. exists [], it. split; [exact H|reflexivity].
-  - destruct (lookup sid (proofs K P)) as [p|]; [destruct p as [| |pid cm bp| |]|]; try discriminate.
+  - destruct (lookup sid (proofs K P)) as [p|]; [destruct p as [| |pid cm bp| | |]|]; try discriminate.
     destruct (sig_hidden K S0 P ref) as [hid|]; try discriminate.
     destruct (lookup claim hid) as [mp|]; try discriminate.
     destruct (pred_pass K S0 t P) as [it'|]; [|discriminate]. injection H as <-.
     exists [cm; fadd K (fadd K (fmul K cm (fopp K (challenge K P))) (fmul K gm mp)) (fmul K gb bp)], it'. split; reflexivity.
-  - destruct (lookup sid (proofs K P)) as [p|]; [destruct p as [| | |pid c1 c2 bp hp|]|]; try discriminate.
+  - destruct (lookup sid (proofs K P)) as [p|]; [destruct p as [| | |pid c1 c2 bp hp| |]|]; try discriminate.
     destruct (sig_hidden K S0 P ref) as [hid|]; try discriminate.
     destruct (lookup claim hid) as [mp|]; try discriminate.
     destruct (pred_pass K S0 t P) as [it'|]; [|discriminate]. injection H as <-.
     exists [c1; c2; fadd K (fmul K c1 (fopp K (challenge K P))) bp; fadd K (fadd K (fmul K c2 (fopp K (challenge K P))) (fmul K gm mp)) (fmul K ek bp)], it'.
     split; reflexivity.
+  - destruct (lookup sid (proofs K P)) as [p|]; [destruct p as [| | | | |pid sy fin]|]; try discriminate.
+    destruct (sig_hidden K S0 P ref) as [hid|]; try discriminate.
+    destruct (lookup claim hid) as [mp|]; try discriminate.
+    destruct (pred_pass K S0 t P) as [it'|]; [|discriminate]. injection H as <-.
+    exists [fin], it'. split; reflexivity.
+Qed.
+
+Lemma pred_pass_rev S0 S P it : pred_pass K S0 S P = Some it ->
+  forall sid ref claim, In (SRev K sid ref claim) S ->
+  exists pid sy fin hid mp, lookup sid (proofs K P) = Some (PRev K pid sy fin) /\
+    sig_hidden K S0 P ref = Some hid /\ lookup claim hid = Some mp /\ In fin it.
+Proof.
+  revert it. induction S as [|s t IH]; intros it H sid ref claim Hin; [destruct Hin|].
+  destruct Hin as [->|Hin].
+  - cbn [pred_pass] in H. destruct (lookup sid (proofs K P)) as [p|] eqn:E1; [destruct p as [| | | | |pid sy fin]|]; try discriminate.
+    destruct (sig_hidden K S0 P ref) as [hid|] eqn:E2; try discriminate.
+    destruct (lookup claim hid) as [mp|] eqn:E3; try discriminate.
+    destruct (pred_pass K S0 t P) as [it'|]; [|discriminate]. injection H as <-.
+    exists pid, sy, fin, hid, mp. repeat split; try assumption; cbn; auto.
+  - destruct (pred_pass_step S0 s t P it H) as [pre [it' [Ht ->]]].
+    destruct (IH it' Ht _ _ _ Hin) as [pid [sy [fin [hid [mp [A [B [C D]]]]]]]].
+    exists pid, sy, fin, hid, mp. repeat split; try assumption; apply in_or_app; right; assumption.
 Qed.
 
 Lemma pred_pass_comm S0 S P it : pred_pass K S0 S P = Some it ->
@@ -70,7 +93,7 @@ Lemma pred_pass_comm S0 S P it : pred_pass K S0 S P = Some it ->
 Proof.
   revert it. induction S as [|s t IH]; intros it H sid ref claim gm gb Hin; [destruct Hin|].
   destruct Hin as [->|Hin].
-  - cbn [pred_pass] in H. destruct (lookup sid (proofs K P)) as [p|] eqn:E1; [destruct p as [| |pid cm bp| |]|]; try discriminate.
+  - cbn [pred_pass] in H. destruct (lookup sid (proofs K P)) as [p|] eqn:E1; [destruct p as [| |pid cm bp| | |]|]; try discriminate.
     destruct (sig_hidden K S0 P ref) as [hid|] eqn:E2; try discriminate.
     destruct (lookup claim hid) as [mp|] eqn:E3; try discriminate.
     destruct (pred_pass K S0 t P) as [it'|]; [|discriminate]. injection H as <-.
@@ -90,7 +113,7 @@ Lemma pred_pass_venc S0 S P it : pred_pass K S0 S P = Some it ->
 Proof.
   revert it. induction S as [|s t IH]; intros it H sid ref claim gm ek al Hin; [destruct Hin|].
   destruct Hin as [->|Hin].
-  - cbn [pred_pass] in H. destruct (lookup sid (proofs K P)) as [p|] eqn:E1; [destruct p as [| | |pid c1 c2 bp hp|]|]; try discriminate.
+  - cbn [pred_pass] in H. destruct (lookup sid (proofs K P)) as [p|] eqn:E1; [destruct p as [| | |pid c1 c2 bp hp| |]|]; try discriminate.
     destruct (sig_hidden K S0 P ref) as [hid|] eqn:E2; try discriminate.
     destruct (lookup claim hid) as [mp|] eqn:E3; try discriminate.
     destruct (pred_pass K S0 t P) as [it'|]; [|discriminate]. injection H as <-.
@@ -105,7 +128,7 @@ Lemma pred_pass_eq S0 S P it : pred_pass K S0 S P = Some it ->
 Proof.
   revert it. induction S as [|s t IH]; intros it H sid refs Hin; [destruct Hin|].
   destruct Hin as [->|Hin].
-  - cbn [pred_pass] in H. destruct (lookup sid (proofs K P)) as [p|] eqn:E1; [destruct p as [|pid| | |]|]; try discriminate. exists pid. reflexivity.
+  - cbn [pred_pass] in H. destruct (lookup sid (proofs K P)) as [p|] eqn:E1; [destruct p as [|pid| | | |]|]; try discriminate. exists pid. reflexivity.
   - destruct (pred_pass_step S0 s t P it H) as [pre [it' [Ht ->]]]. apply (IH it' Ht _ _ Hin).
 Qed.
 
@@ -234,5 +257,31 @@ Proof.
   repeat split; try assumption; try (apply in_or_app; right; assumption).
   intros ->. unfold post in Hp. rewrite forallb_forall in Hp. specialize (Hp _ Hin). cbn [post_one] in Hp. rewrite A in Hp.
   destruct hp; [reflexivity|discriminate].
+Qed.
+(** C05 / C06: a revocation (or set-membership) statement is only satisfied by an accumulator proof whose element
+    response IS the response the referenced signature proof carries for the referenced claim, and whose recomputed
+    commitments went into the challenge *)
+Theorem accept_revocation_link S P fs : verify_with K S P fs = Accept ->
+  forall sid ref claim, In (SRev K sid ref claim) S ->
+  exists pid fin hid mp it, lookup sid (proofs K P) = Some (PRev K pid mp fin) /\
+    sig_hidden K S P ref = Some hid /\ lookup claim hid = Some mp /\
+    items K S P = Some it /\ fs (Some it) = true /\ In fin it.
+Proof.
+  intros H sid ref claim Hin. destruct (accept_inv S P fs H) as [a [b [Ha [Hb [Hf Hp]]]]].
+  destruct (pred_pass_rev S S P b Hb _ _ _ Hin) as [pid [sy [fin [hid [mp [A [B [C D]]]]]]]].
+  unfold post in Hp. rewrite forallb_forall in Hp. specialize (Hp _ Hin). cbn [post_one] in Hp. rewrite A, B, C in Hp.
+  apply Keq in Hp. subst sy.
+  exists pid, fin, hid, mp, (a ++ b). unfold items. rewrite (accept_ids S P fs H), Ha, Hb.
+  repeat split; try assumption. apply in_or_app; right; assumption.
+Qed.
+
+(** ... and never by a proof of another kind, or by one whose element response differs *)
+Theorem revocation_response_mismatch_rejected S P fs sid ref claim pid sy fin hid mp :
+  In (SRev K sid ref claim) S -> lookup sid (proofs K P) = Some (PRev K pid sy fin) ->
+  sig_hidden K S P ref = Some hid -> lookup claim hid = Some mp -> sy <> mp ->
+  verify_with K S P fs <> Accept.
+Proof.
+  intros Hin A B C Hne H. destruct (accept_revocation_link S P fs H _ _ _ Hin) as [pid' [fin' [hid' [mp' [it [A' [B' [C' _]]]]]]]].
+  rewrite A in A'. rewrite B in B'. injection B' as <-. rewrite C in C'. injection C' as <-. injection A' as _ E _. contradiction.
 Qed.
 End PresP.
